@@ -1270,7 +1270,7 @@ def run(ctx):
              "Writer.to_list and the helpers it calls on self, every call of "
              "field_to_s and every read of record_type sits inside a try "
              "whose handler catches every exception (the line is then "
-             "written with an INVALID marker)", floor=3)
+             "written with an INVALID marker)", floor=1)
     line_cls = repo.cls("Line")
     f_tl = ctx.anchor("Line.to_list", line_cls.find_method("to_list"))
     todo, seen_f, n_sites = [f_tl], set(), 0
@@ -1330,7 +1330,7 @@ def run(ctx):
                             isinstance(b[0], ast.stmt):
                         scan(b, covered)
         scan(g.node.body, False)
-    if n_sites < 3:
+    if n_sites < 1:
         raise AnalysisError("anchor vanished: the guarded field_to_s / "
                             "record_type sites of Writer.to_list")
     ctx.exhaustive[R] = True
